@@ -388,6 +388,12 @@ func libStubs() map[string]StubFn {
 	m["math.Float32frombits"] = func(c *CallCtx) { c.Return(FPFromBits(c.args[0].(*Term))) }
 	m["math.IsNaN"] = func(c *CallCtx) { c.Return(FPIsNaN(c.args[0].(*Term))) }
 	m["runtime.Gosched"] = noop
+	// sync/atomic on one thread: plain loads and stores (thread mode is not used by these checks)
+	atomicLoad := func(c *CallCtx) { c.Return(c.ex.load(c.st, c.args[0].(Ptr))) }
+	m["sync/atomic.LoadUint32"] = atomicLoad
+	m["sync/atomic.LoadInt32"] = atomicLoad
+	m["sync/atomic.LoadUint64"] = atomicLoad
+	m["sync/atomic.LoadInt64"] = atomicLoad
 	// Comp.TypeOf(v): the universe's type object for v's dynamic type (xreflect internals not encoded)
 	typeOfDyn := func(c *CallCtx) {
 		i, ok := c.args[len(c.args)-1].(Iface)
